@@ -383,7 +383,7 @@ class SyncEntry:
     def deserialize(self, storage_init: Tuple[Any, bytes]):
         """loads the values in the serialization dict into self"""
         self.storage_id = storage_init[0]
-        ser: dict = msgpack.loads(storage_init[1], use_list=False, raw=False)
+        ser: dict = msgpack.loads(storage_init[1], use_list=False, raw=False, strict_map_key=False)
         self.__states[0].deserialize(ser['side0'])
         self.__states[1].deserialize(ser['side1'])
         reason_string = ser.get('ignored', "")
